@@ -270,6 +270,8 @@ def r2_ownership(a, tier):
         for pc in prune:
             pname = norm(pc.args[1]) if len(pc.args) > 1 else '?'
             pf = next((s for s in preds if s.name == pname), None)
+            if pf is None and pname in fn.module.functions:
+                pf = fn.module.functions[pname]  # the predicate is a module-level function
             if pf is None:
                 rep.fail(q, 'prune-predicate', f'cannot find the predicate `{pname}` of {norm(pc)}', fn.loc)
                 continue
